@@ -72,11 +72,11 @@ CHECKS.update({
              note="trusted: Coq kernel + vm_compute, harness describe() and the ast abstraction in c04codec.py; modelled not verified: CPython tokenizer/ast/asttokens, pickle value fidelity, zipfile/pathlib, "
                   "formula text (C20), reader instruction phases ((P) only), IOSpec references (C18); generator avoids D1 D8 D9 D24 and C04-local D33-D37",
              technique="Coq proof (induction over nested trees / write sequences) + generated-case correspondence by vm_compute + differential oracle on the real library", design="6/C04"),
- "C14": dict(text="Backup-chain invariant proved in Coq for all sequences of faulted and successful saves (zip: unconditional; directory: no two consecutive failures) over an executable model of "
+ "C14": dict(text="Backup-chain invariant proved in Coq for ALL sequences of faulted and successful saves, zip and directory, one fault per save at any operation (unconditional since the /repo repair of D17; no path ever holds a partly written copy), over an executable model of "
                   "_increment_backups, ModelWriter.write_model and ModelReader.read_model, plus session/registry cleanliness after any failed operation; tied to /repo on every run by exhaustive "
                   "fault-point enumeration with traces and on-disk state compared inside Coq.",
              note="trusted: Coq kernel + vm_compute; driver monkey-patch fault injection (a fault raises before the primitive runs); modelled not verified: pathlib, shutil, zipfile, pickle, tempfile; "
-                  "member shapes from clean runs; four slots (DEFAULT_MAX_BACKUPS=3); not modelled: partial rmtree, cross-filesystem move, serializer_1 fallback",
+                  "member shapes from clean runs; four slots (DEFAULT_MAX_BACKUPS=3); one fault per save (a second fault inside the removal of a partly written tree is not modelled); not modelled: partial rmtree, cross-filesystem move, serializer_1 fallback",
              technique="Coq proof (induction over save lists + 4-slot case analysis) + exhaustive fault-injection correspondence + property oracle", design="6/C14"),
  "C15": dict(text="Coq proof that the exporter's name-rewriting rule preserves evaluation for every formula of a binder grammar and every model satisfying a decidable well-formedness check, plus "
                   "memo-table soundness; tie on every run: real FormulaTransformer output = transform, the Gallina evaluator on the dumped implementation state = observed values in both worlds, "
